@@ -201,7 +201,7 @@ func Facts(repo string) (string, error) {
 		}
 		bodies[name] = r.block(fd.Body.List)
 	}
-	for _, need := range []string{"NewLimiter", "Limiter.Go", "Limiter.add", "Limiter.done", "Limiter.Wait", "Recover"} {
+	for _, need := range []string{"NewLimiter", "Limiter.Go", "Limiter.add", "Limiter.done", "Limiter.Wait", "Limiter.SetPanicHandler", "Recover"} {
 		if _, ok := bodies[need]; !ok {
 			return "", fmt.Errorf("function %s not found in goz/goz.go", need)
 		}
@@ -240,7 +240,7 @@ func Facts(repo string) (string, error) {
 	fmt.Fprintf(&b, "def limiterFields : List String := %s\n\n", leanList(fields))
 	for _, fn := range []struct{ lean, src string }{
 		{"newLimiterBody", "NewLimiter"}, {"goBody", "Limiter.Go"}, {"addBody", "Limiter.add"},
-		{"doneBody", "Limiter.done"}, {"recoverBody", "Recover"},
+		{"doneBody", "Limiter.done"}, {"recoverBody", "Recover"}, {"setHandlerBody", "Limiter.SetPanicHandler"},
 	} {
 		fmt.Fprintf(&b, "def %s : List String := %s\n\n", fn.lean, leanList(bodies[fn.src]))
 	}
